@@ -15,6 +15,7 @@ mod c01;
 mod c04;
 mod c02;
 mod vp8lbits;
+mod vp8lgen;
 mod animgen;
 mod webpfile;
 mod oracle;
